@@ -281,6 +281,34 @@ def sourceFailing (fill : Option Int) (start : Int) (tA tB sA sB : Table)
   (if n1 == !e1 ∧ n2 == !e2 then [] else ["ne_is_negation"]) ++
   (if e1 == e2 then [] else ["eq_symm"])
 
+/-! ### which node-coordinate representation a grid has STORED
+
+  A grid built from Cartesian vertices (`from_face_vertices(latlon=False)`) stores only
+  `node_x/y/z`; `node_lon`/`node_lat` are derived (and cached) the first time they are read —
+  which `Grid.__eq__` does through the `node_lon` / `node_lat` properties.  So `==` compares the
+  longitude / latitude VALUES whatever is stored; the stored representation (and the history of
+  which attributes were read before) is not an input. -/
+
+structure SGrid where
+  g : Grid
+  /-- `node_lon`/`node_lat` are already stored -/
+  hasLL : Bool := true
+  /-- `node_x`/`node_y`/`node_z` are already stored -/
+  hasXYZ : Bool := false
+
+/-- `Grid.__eq__` on grids in any storage state: reads the `node_lon`/`node_lat` properties. -/
+def gridEqS (a b : SGrid) : Bool := gridEq a.g b.g
+
+/-- a *common-subset* comparison (NOT what the code does): each node-coordinate representation is
+    compared only when BOTH grids already store it (`xyzEq` = outcome of comparing the stored
+    Cartesian arrays).  `Props/C20.lean: common_subset_wrong`. -/
+def gridEqCommon (xyzEq : Bool) (a b : SGrid) : Bool :=
+  if a.g.spec != b.g.spec then false
+  else if a.hasLL && b.hasLL && !(lonEq a.g b.g && latEq a.g b.g) then false
+  else if a.hasXYZ && b.hasXYZ && !xyzEq then false
+  else if !(connEq a.g b.g) then false
+  else true
+
 /-- right operand of `==`: a grid or anything else (the tag only names the kind of object). -/
 inductive Obj where
   | grid (g : Grid)
